@@ -67,6 +67,8 @@ func C19(c *Ctx) {
 	c.c19RecordedKey()
 	r.Rule("R19.6", "one index entry per slot: an index wrapper keyed by (account, nonce, time) that records the time in a side map (items) replaces nothing when the same slot is inserted with a new time (the btree key differs). Its raw insertion (ReplaceOrInsert + items[slot] = time without looking the slot up) is therefore called only where the old entry of the slot has been taken out: on every path to the call an index.Delete was executed, or the items lookup of the slot answered 'absent'. Otherwise a superseded transaction leaves its entry behind, the eviction sweep resolves it to the replacement and evicts the young replacement with the old one's age.")
 	c.c19RawInsert()
+	r.Rule("R19.7", "the per-account store follows its nonce index: wherever transactions are taken out of an account's nonce index (index.removeBySortedNonceKey) they also leave that account's items map - the set handed to the removal is the result of forward() (which deletes from items as it collects), also through parameters of helpers / closures, or the same function deletes them from items. An entry left in items is found again when the same transaction is re-admitted and is taken for a superseded one.")
+	c.c19ItemsFollowIndex()
 	r.NotDecided = append(r.NotDecided, "liveness ('included in one of the next batches'); side maps that are not indices (allTxs[account].items after an eviction, seed C19-r9); drift of the counter over histories; goroutine confinement of the pool (see C20 R20.5)")
 
 	ra := c.fn("R19.1", mpPrefix+"RemoveAliveTimeoutTxs")
@@ -406,4 +408,101 @@ func blockReach(from, to *ssa.BasicBlock) bool {
 		return false
 	}
 	return walk(from)
+}
+
+// c19ItemsFollowIndex: R19.7.
+func (c *Ctx) c19ItemsFollowIndex() {
+	r := c.R
+	n := 0
+	isForward := func(v ssa.Value) bool {
+		cc, ok := core.Strip(v).(*ssa.Call)
+		return ok && strings.HasSuffix(core.CalleeName(cc), "txSortedMap).forward")
+	}
+	var fromForward func(v ssa.Value, d int) bool
+	fromForward = func(v ssa.Value, d int) bool {
+		if d > 3 {
+			return false
+		}
+		if isForward(v) {
+			return true
+		}
+		if id := core.VarIdentity(v); id != nil {
+			if al, ok := id.(*ssa.Alloc); ok {
+				st := core.StoresInto(al)
+				if len(st) == 0 {
+					return false
+				}
+				for _, sv := range st {
+					if !fromForward(sv, d+1) {
+						return false
+					}
+				}
+				return true
+			}
+		}
+		if p, ok := core.Strip(v).(*ssa.Parameter); ok {
+			fn := p.Parent()
+			idx := -1
+			for i, q := range fn.Params {
+				if q == p {
+					idx = i
+				}
+			}
+			ss := core.StaticSitesOf(fn)
+			if idx < 0 || len(ss) == 0 {
+				return false
+			}
+			for _, site := range ss {
+				args := site.Common().Args
+				if idx >= len(args) || !fromForward(args[idx], d+1) {
+					return false
+				}
+			}
+			return true
+		}
+		return false
+	}
+	deletesItems := func(f *ssa.Function) bool {
+		for g := f; g != nil; g = g.Parent() {
+			for _, call := range core.Calls(g) {
+				b, ok := call.Common().Value.(*ssa.Builtin)
+				if !ok || b.Name() != "delete" || len(call.Common().Args) == 0 {
+					continue
+				}
+				if o, fld, _, ok := core.FieldOf(call.Common().Args[0]); ok && fld == "items" && strings.HasSuffix(o, "txSortedMap") {
+					return true
+				}
+			}
+		}
+		return false
+	}
+	for _, fn := range c.P.ModuleFuncs(true) {
+		if core.PkgOf(fn) != "pkg/order/mempool" {
+			continue
+		}
+		for _, call := range core.Calls(fn) {
+			if !strings.HasSuffix(core.CalleeName(call), "btreeIndex).removeBySortedNonceKey") {
+				continue
+			}
+			// only the per-account nonce index (a field `index` of txSortedMap)
+			if o, fld, _, ok := core.FieldOf(core.Receiver(call)); !ok || fld != "index" || !strings.HasSuffix(o, "txSortedMap") {
+				continue
+			}
+			args := call.Common().Args
+			if len(args) == 0 {
+				continue
+			}
+			n++
+			okA := fromForward(args[len(args)-1], 0)
+			okB := deletesItems(fn)
+			top := fn
+			for top.Parent() != nil {
+				top = top.Parent()
+			}
+			r.Check(okA || okB, "R19.7", fmt.Sprintf("%s: removal from the nonce index #%d also empties items", shortFn(top), n), c.P.Pos(call.Pos()),
+				"the removed set comes from forward() or the function deletes the entries from items",
+				"transactions are taken out of an account's nonce index but stay in its items map: when the same transaction is delivered again (rebroadcast, client retry) insertTxs finds the stale entry under its nonce, treats the new arrival as superseding it and drops bookkeeping of the live transaction (its hash), which then can neither be looked up nor committed")
+		}
+	}
+	r.Floor("R19.7", "removals from per-account nonce indices", n, 1)
 }
